@@ -138,7 +138,13 @@ pub fn adsr_case(data: &[u8]) -> adsr::AdsrCase {
             11 => Seek((r.unit() * 0.999) as f32),
             12 => SetAttack(adsr_time(&mut r, fs, false)),
             13 => SetDecay(adsr_time(&mut r, fs, false)),
-            14 => SetRelease(adsr_time(&mut r, fs, false)),
+            14 => {
+                if r.bool() {
+                    SetRelease(adsr_time(&mut r, fs, false))
+                } else {
+                    NudgeTime { dst: r.u8() % 3, src: r.u8() % 3, rel: ((r.unit() - 0.5) * 2e-3) as f32 }
+                }
+            }
             _ => SetSustain(sustain(&mut r, false)),
         });
     }
@@ -196,7 +202,13 @@ pub fn quant_case(data: &[u8]) -> quant::QuantCase {
                 (0..n).map(|_| r.u8() % 12).collect()
             }),
             7 | 8 | 9 | 10 => Convert(quant_v(&mut r)),
-            11 => ConvertSame,
+            11 => {
+                if r.u8() % 4 == 0 {
+                    EditBurst { note: r.u8() % 12, n: [255u16, 256, 257, 511, 512, 128, 64, 3][(r.u8() % 8) as usize] }
+                } else {
+                    ConvertSame
+                }
+            }
             12 => ConvertNudge(((r.unit() - 0.5) * 0.04) as f32),
             13 => Ramp {
                 start: (r.unit() * 10.0) as f32,
@@ -253,7 +265,7 @@ pub fn glide_case(data: &[u8]) -> glide::GlideCase {
 
 pub fn ribbon_case(data: &[u8]) -> ribbon::RibbonCase {
     let mut r = Rd::new(data);
-    let rate_idx = r.u8() % 16;
+    let rate_idx = r.u8() % 24;
     let softpot_idx = r.u8() % 4;
     let dropper_frac = r.unit() as f32;
     let pullup_factor = (r.unit() * 1000f64.ln()).exp() as f32;
@@ -283,6 +295,7 @@ pub fn ribbon_case(data: &[u8]) -> ribbon::RibbonCase {
                 _ => 100 + r.u16() % 1900,
             },
             alt_key: r.u32(),
+            pattern: (r.u8() % 3 == 0) as u8,
         });
     }
     ribbon::RibbonCase { rate_idx, softpot_idx, dropper_frac, pullup_factor, segs }
@@ -406,7 +419,7 @@ pub fn api_case(data: &[u8]) -> api::ApiCase {
             api::ApiCase::Quant { calls }
         }
         4 => {
-            let (rate_idx, softpot_idx) = (r.u8() % 16, r.u8() % 4);
+            let (rate_idx, softpot_idx) = (r.u8() % 24, r.u8() % 4);
             let dropper_frac = r.unit() as f32;
             let pullup_factor = (r.unit() * 1000f64.ln()).exp() as f32;
             let mut calls = vec![];
